@@ -6,7 +6,9 @@ import (
 	"encoding/json"
 	"errors"
 	"fmt"
+	"io"
 	"net"
+	"net/http"
 	"net/netip"
 	"os"
 	"path/filepath"
@@ -39,6 +41,10 @@ type Spec struct {
 	ClientEndpoint string     `json:"clientEndpoint,omitempty"` // host:port of the upstream (IP or name)
 	ClientPadding  string     `json:"clientPadding,omitempty"`
 	ClientNetwork  string     `json:"clientNetwork,omitempty"` // "", "ip", "ip4", "ip6": address family of resolved names
+	ClientMTU      int        `json:"clientMTU,omitempty"`     // MTU of the outbound client (default 1500)
+
+	// API enables the management API on a loopback TCP port (Stats reads it).
+	API bool `json:"api,omitempty"`
 
 	// Chain: the upstream is a second server of the same process (protocol = ClientProto) that
 	// goes out directly; ClientEndpoint is then filled by Start.
@@ -50,6 +56,7 @@ type Spec struct {
 	// filled by Start
 	ServerAddr netip.AddrPort `json:"-"`
 	HopAddr    netip.AddrPort `json:"-"`
+	APIAddr    netip.AddrPort `json:"-"`
 }
 
 func isSS2022(p string) bool { return strings.HasPrefix(p, "2022-") }
@@ -103,6 +110,10 @@ func (sp *Spec) ToJSON(dir string) ([]byte, error) {
 	}
 	servers := []any{srv}
 
+	cmtu := 1500
+	if sp.ClientMTU != 0 {
+		cmtu = sp.ClientMTU
+	}
 	var clients []any
 	router := jmap{}
 	var routes []any
@@ -113,13 +124,13 @@ func (sp *Spec) ToJSON(dir string) ([]byte, error) {
 		routes = append(routes, jmap{"name": "rej-ports", "network": "udp", "client": "reject", "toPorts": sp.RejectPorts})
 	}
 	if sp.ClientProto == "direct" {
-		c := jmap{"name": "out", "protocol": "direct", "enableUDP": true, "mtu": 1500}
+		c := jmap{"name": "out", "protocol": "direct", "enableUDP": true, "mtu": cmtu}
 		if sp.ClientNetwork != "" {
 			c["network"] = sp.ClientNetwork
 		}
 		clients = append(clients, c)
 	} else {
-		c := jmap{"name": "out", "protocol": sp.ClientProto, "endpoint": sp.ClientEndpoint, "enableUDP": true, "mtu": 1500}
+		c := jmap{"name": "out", "protocol": sp.ClientProto, "endpoint": sp.ClientEndpoint, "enableUDP": true, "mtu": cmtu}
 		if isSS2022(sp.ClientProto) {
 			k := sp.ClientKeys
 			if k.EIH() {
@@ -162,6 +173,9 @@ func (sp *Spec) ToJSON(dir string) ([]byte, error) {
 	doc := jmap{"servers": servers, "clients": clients}
 	if len(router) > 0 {
 		doc["router"] = router
+	}
+	if sp.API {
+		doc["api"] = jmap{"enabled": true, "listeners": []any{jmap{"network": "tcp", "address": sp.APIAddr.String()}}}
 	}
 	return json.MarshalIndent(doc, "", " ")
 }
@@ -219,6 +233,13 @@ func startOnce(sp *Spec, dir string) (*Service, error) {
 		}
 		sp.HopAddr = netip.AddrPortFrom(netip.MustParseAddr("127.0.0.1"), hp)
 		sp.ClientEndpoint = sp.HopAddr.String()
+	}
+	if sp.API {
+		ap, err := FreeTCPPort(netip.MustParseAddr("127.0.0.1"))
+		if err != nil {
+			return nil, err
+		}
+		sp.APIAddr = netip.AddrPortFrom(netip.MustParseAddr("127.0.0.1"), ap)
 	}
 	doc, err := sp.ToJSON(dir)
 	if err != nil {
@@ -300,6 +321,65 @@ func (s *Service) StoppedFor() time.Duration { return time.Since(s.stopAt) }
 
 // RunOK reports Manager.Run's result (valid after done).
 func (s *Service) RunOK() bool { return s.ok }
+
+// FreeTCPPort picks a TCP port by bind-and-close.
+func FreeTCPPort(ip netip.Addr) (uint16, error) {
+	l, err := net.ListenTCP("tcp", net.TCPAddrFromAddrPort(netip.AddrPortFrom(ip, 0)))
+	if err != nil {
+		return 0, err
+	}
+	defer l.Close()
+	return l.Addr().(*net.TCPAddr).AddrPort().Port(), nil
+}
+
+// Traffic mirrors the JSON of GET /api/ssm/v1/servers/{server}/stats.
+type Traffic struct {
+	DownlinkPackets uint64 `json:"downlinkPackets"`
+	DownlinkBytes   uint64 `json:"downlinkBytes"`
+	UplinkPackets   uint64 `json:"uplinkPackets"`
+	UplinkBytes     uint64 `json:"uplinkBytes"`
+	TCPSessions     uint64 `json:"tcpSessions"`
+	UDPSessions     uint64 `json:"udpSessions"`
+}
+
+// UserTraffic is one entry of the "users" array.
+type UserTraffic struct {
+	Name string `json:"username"`
+	Traffic
+}
+
+// ServerStats is the document returned for one server.
+type ServerStats struct {
+	Traffic
+	Users []UserTraffic `json:"users"`
+}
+
+// Stats asks the running service's management API for a server's statistics.
+func (s *Service) Stats(server string) (ServerStats, error) {
+	var st ServerStats
+	tr := &http.Transport{DisableKeepAlives: true}
+	defer tr.CloseIdleConnections()
+	cl := &http.Client{Transport: tr, Timeout: 5 * time.Second}
+	var lastErr error
+	for range 20 {
+		resp, err := cl.Get("http://" + s.Spec.APIAddr.String() + "/api/ssm/v1/servers/" + server + "/stats")
+		if err != nil {
+			lastErr = err
+			time.Sleep(20 * time.Millisecond)
+			continue
+		}
+		b, err := io.ReadAll(resp.Body)
+		resp.Body.Close()
+		if err != nil {
+			return st, err
+		}
+		if resp.StatusCode != 200 {
+			return st, fmt.Errorf("GET stats: %s: %s", resp.Status, b)
+		}
+		return st, json.Unmarshal(b, &st)
+	}
+	return st, lastErr
+}
 
 // FreePort picks a port by bind-and-close on ip; with tcpToo the port is free for TCP as well.
 func FreePort(ip netip.Addr, tcpToo bool) (uint16, error) {
